@@ -38,6 +38,8 @@ func checkC02(c *Ctx) {
 	ruleC02G3(c, t, "C02.G3")
 	ruleC02W1(c, t)
 	ruleC02V3(c, t)
+	c.Rule("C02.V4", "constructors build the RBC receiver from the factory's arguments unchanged", 2)
+	ruleConstructorWiring(c, t, "C02.V4", "")
 }
 
 // G1: a sender cannot vouch for itself.
